@@ -3,8 +3,17 @@
 C-tie: the real scared.signal_processing functions are run on generated inputs and their outputs are compared, inside
 Coq, with the SPEC-side definitions of Model/Signal.v (naive statistics of every window, per-window Pearson triple,
 squared distance, variance ratio, documented pad / extract placement) and Model/Peaks.v (property clauses of find_peaks
-evaluated on the observed result + equality with the repaired scan; find_width = brute-force enumeration of the
-bracketed maximal runs + the gap construction).
+evaluated on the observed result; equality with the repaired scan as a separate correspondence; find_width = brute-force
+enumeration of the bracketed maximal runs + the gap construction).
+
+Three families of cases per function:
+  * values: arrays x axes x windows / patterns / thresholds ... (single call on a fresh C-contiguous array);
+  * memory layout and dtype representation: the SAME logical values given as strided / negative-stride / Fortran /
+    transposed / offset-base / column / read-only / zero-stride / big-endian arrays (only the forms the unchanged code
+    accepts), all integer widths; argument forms (Python int / float / numpy scalar / tuple / ndarray);
+  * call histories: 2-4 calls where the same ndarray object is modified in place between calls, another array holds the
+    same values, functions / windows / axes alternate; every call is compared with its spec (the functions are pure:
+    the spec of a call depends on the current content only) and earlier results must stay intact.
 """
 import itertools
 import warnings
@@ -23,8 +32,8 @@ EXHAUSTIVE = True
 TRUSTED_BASE = [
     'Coq 8.16.1 kernel incl. vm_compute (no native_compute)',
     'Print Assumptions: every theorem of Props/C19.v is closed under the global context (no axioms)',
-    'correspondence harness tools/props/C19.py: numpy C-order flattening, float.hex export, exact scaling of dyadic values '
-    'to integers for find_peaks / find_width / pad',
+    'correspondence harness tools/props/C19.py: construction of the memory layouts, nested tolist() read-back, float.hex export, '
+    'exact scaling of dyadic values to integers for find_peaks / find_width / pad, in-place refill of buffers between calls',
     'modelled, not verified: numpy cumsum / swapaxes / where / diff / take / tile semantics, scipy.signal.correlate(valid) as the '
     'sliding dot product, numba njit of the scan loop (hand-written impl-models, held by the correspondence check)',
 ]
@@ -37,6 +46,10 @@ ASSUMPTIONS = [
     'find_width arguments satisfy the checks of the code (min_width >= 1, max_width >= 1, 0 < delta < min_width when max_width is None)',
     'extract_around_indexes: before, after >= 0; documented placement proved for in-range indices, numpy.take wrap-around of '
     'negative positions and IndexError modelled and compared as well',
+    'argument forms the unchanged code refuses are not generated: numpy integer scalars as window / distance / widths / before / after / '
+    'threshold, numpy.float32 scalars as height, big-endian data for find_peaks (numba), uint64 index arrays, unsigned data with '
+    'Direction.POSITIVE in find_width (OverflowError under numpy 2), float32 data with a threshold that is not a float32 value '
+    '(numpy 2 compares in float32)',
 ]
 
 HDR_S = 'From ScaredV Require Import Model.Signal.'
@@ -44,15 +57,86 @@ HDR_P = 'From ScaredV Require Import Model.Peaks.'
 
 F = core.float_to_coq
 
+INT_DTYPES = ['int8', 'uint8', 'int16', 'uint16', 'int32', 'uint32', 'int64', 'uint64']
+ALL_DTYPES = ['float64', 'float32'] + INT_DTYPES
+LAYOUTS = ['strided', 'neg', 'fortran', 'transposed', 'offset', 'column', 'readonly', 'bigendian']      # besides 'c' and 'zerostride'
+WRITABLE_LAYOUTS = ['c', 'strided', 'neg', 'fortran', 'offset', 'column']
+
+
+def _is_int(dtype):
+    return dtype.startswith(('int', 'uint'))
+
+
+def _flatten(x):
+    if isinstance(x, list):
+        for y in x:
+            yield from _flatten(y)
+    else:
+        yield x
+
 
 def _flat(a):
-    return [float(v) for v in np.ascontiguousarray(a).reshape(-1).tolist()]
+    """Values of a result read through nested tolist() (independent of the memory layout of the result), C order."""
+    return [float(v) for v in _flatten(np.asarray(a).tolist())]
+
+
+def _flat_int(a):
+    return [int(v) for v in _flatten(np.asarray(a).tolist())]
+
+
+def _logical(values, den, dtype, shape):
+    """The logical array: numerators / den in the given dtype (integral values required for integer dtypes), C-contiguous."""
+    if _is_int(dtype):
+        if any(v % den for v in values):
+            raise ValueError('non-integral value for an integer dtype')
+        return np.array([v // den for v in values], dtype=dtype).reshape(shape)
+    return (np.array(values, dtype='float64') / den).astype(dtype).reshape(shape)
+
+
+def _relayout(a, layout):
+    """An array with the same values, shape and (logical) dtype as `a` but another memory layout; the cells of the base
+    buffer that do not belong to the array hold other values (77, 55, 33), so that reading them shows."""
+    nd = a.ndim
+    if layout in (None, 'c'):
+        r = a.copy()
+    elif layout == 'strided':
+        b = np.full(tuple(2 * s + 1 for s in a.shape), 77, dtype=a.dtype)
+        sl = tuple(slice(1, 1 + 2 * s, 2) for s in a.shape)
+        b[sl] = a
+        r = b[sl]
+    elif layout == 'neg':
+        inv = tuple(slice(None, None, -1) for _ in range(nd))
+        r = np.ascontiguousarray(a[inv])[inv]
+    elif layout == 'fortran':
+        r = np.asfortranarray(a)
+    elif layout == 'transposed':
+        r = np.ascontiguousarray(a.T).T
+    elif layout == 'offset':
+        b = np.full(tuple(s + 5 for s in a.shape), 55, dtype=a.dtype)
+        sl = tuple(slice(3, 3 + s) for s in a.shape)
+        b[sl] = a
+        r = b[sl]
+    elif layout == 'column':
+        b = np.full(a.shape + (3,), 33, dtype=a.dtype)
+        b[..., 1] = a
+        r = b[..., 1]
+    elif layout == 'readonly':
+        r = a.copy()
+        r.flags.writeable = False
+    elif layout == 'bigendian':
+        r = a.astype(a.dtype.newbyteorder('>'))
+    elif layout == 'zerostride':
+        r = np.broadcast_to(a[:1] if nd else a, a.shape)
+    else:
+        raise ValueError(layout)
+    if r.shape != a.shape or not np.array_equal(r, a):
+        raise ValueError(f'layout {layout} cannot hold these values')
+    return r
 
 
 def _arr(case):
-    """Input array of a moving/pattern/extract case: values = numerators, den = power-of-two denominator."""
-    a = np.array(case['values'], dtype='float64') / case['den']
-    return a.astype(case['dtype']).reshape(case['shape'])
+    """Logical input array of a moving/pad/extract case."""
+    return _logical(case['values'], case['den'], case['dtype'], case['shape'])
 
 
 def _rand_values(rng, n, dtype, mode):
@@ -73,20 +157,151 @@ def _rand_values(rng, n, dtype, mode):
     return [rng.randint(lo, hi) for _ in range(n)], den
 
 
+def _perturb(rng, vals, dtype):
+    """New content for an in-place modification: one sample poked, a refill, or a sign flip / shift."""
+    lo = 0 if dtype.startswith('uint') else -60
+    r = rng.random()
+    new = list(vals)
+    if r < 0.4 and vals:
+        i = rng.randrange(len(vals))
+        new[i] = vals[i] + rng.choice([8, 16, 24]) if vals[i] < 30 else vals[i] - rng.choice([8, 16, 24])
+    elif r < 0.8:
+        new = [8 * rng.randint(lo // 8, 7) for _ in vals]
+    else:
+        new = [(100 - v) if dtype.startswith('uint') else -v for v in vals]
+    if new == list(vals) and vals:
+        new[0] = vals[0] + 8
+    return new
+
+
+class Base(Kind):
+    """A function family: build(case) -> input arrays, invoke(arrays, case, keep) -> observation."""
+
+    def build(self, case):
+        raise NotImplementedError
+
+    def invoke(self, arrs, case, keep=None):
+        raise NotImplementedError
+
+    def run(self, case):
+        arrs = self.build(case)
+        before = [a.copy() for a in arrs]
+        with warnings.catch_warnings():
+            warnings.simplefilter('ignore')
+            obs = self.invoke(arrs, case)
+        obs['input_unchanged'] = bool(all(np.array_equal(a, b) for a, b in zip(arrs, before)))
+        return obs
+
+    def oracle(self, case, obs):
+        if 'raised' in obs:
+            return f'{self.name} raised {obs["raised"]}: {obs["msg"]}'
+        if obs.get('input_unchanged') is False:
+            return 'input array modified'
+        return self.extra_oracle(case, obs)
+
+    def extra_oracle(self, case, obs):
+        return None
+
+
+class History(Kind):
+    """2-4 calls of one function family on named buffers; a buffer that is used again is refilled IN PLACE (same ndarray
+    object) with the values of the step.  Every call is printed as an ordinary case of the family (the functions are
+    pure: the expected result depends only on the content at call time); earlier results must stay intact."""
+
+    def __init__(self, base, steps_gen, rule):
+        self.base = base
+        self.steps_gen = steps_gen
+        self.name = base.name + '_history'
+        self.header = base.header
+        self.case_type = f'list ({base.case_type})'
+        self.check_fn = f'forallb ({base.check_fn})'
+        if getattr(base, 'corr_fn', None):
+            self.corr_fn = f'forallb ({base.corr_fn})'
+        self.explain_fn = f'map ({base.explain_fn})' if base.explain_fn else None
+        self.shard = 40
+        self.rule = rule
+
+    def gen(self, rng, tier):
+        for steps in self.steps_gen(rng, tier):
+            yield {'steps': steps}
+
+    def run(self, case):
+        bufs = {}
+        keep = []          # (result array, copy at call time, step number, shares memory with an input)
+        out = []
+        with warnings.catch_warnings():
+            warnings.simplefilter('ignore')
+            for k, st in enumerate(case['steps']):
+                fresh = self.base.build(st['case'])
+                if st['buf'] in bufs:
+                    arrs = bufs[st['buf']]
+                    for old, new in zip(arrs, fresh):
+                        old[...] = new                      # in-place modification of the same ndarray object
+                else:
+                    arrs = bufs[st['buf']] = fresh
+                before = [a.copy() for a in arrs]
+                kk = []
+                o = self.base.invoke(arrs, st['case'], kk)
+                o['input_unchanged'] = bool(all(np.array_equal(a, b) for a, b in zip(arrs, before)))
+                for r in kk:
+                    if isinstance(r, np.ndarray) and not any(np.shares_memory(r, a) for a in arrs):
+                        keep.append((r, r.copy(), k))
+                out.append(o)
+        changed = sorted({k for r, c, k in keep if not np.array_equal(r, c, equal_nan=True)})
+        return {'steps': out, 'earlier_results_changed': changed}
+
+    def coq(self, case, obs):
+        sobs = obs.get('steps') or [{'raised': obs.get('raised', '?'), 'msg': ''}] * len(case['steps'])
+        return C.coq_list([self.base.coq(st['case'], o) for st, o in zip(case['steps'], sobs)])
+
+    def oracle(self, case, obs):
+        if 'raised' in obs:
+            return f'{self.name} raised {obs["raised"]}: {obs["msg"]}'
+        for k, (st, o) in enumerate(zip(case['steps'], obs['steps'])):
+            m = self.base.oracle(st['case'], o)
+            if m:
+                return f'call {k}: {m}'
+        if obs['earlier_results_changed']:
+            return f'the result returned by call(s) {obs["earlier_results_changed"]} changed after later calls'
+        return None
+
+    def nontrivial(self, case, obs):
+        return len({st['buf'] for st in case['steps']}) < len(case['steps'])
+
+    def features(self, case, obs):
+        return {'calls': len(case['steps']), 'buffers': len({st['buf'] for st in case['steps']})}
+
+    def tags(self, case, obs):
+        return [self.name]
+
+    def sample(self, case, obs):
+        return {'case': {'steps': case['steps'][:2]}, 'observed': {'steps': [str(o)[:200] for o in obs.get('steps', [])[:2]]}}
+
+    def shrink(self, case):
+        st = case['steps']
+        if len(st) > 2:
+            yield {'steps': st[:-1]}
+            yield {'steps': st[1:]}
+            for i in range(1, len(st) - 1):
+                yield {'steps': st[:i] + st[i + 1:]}
+
+
 # ------------------------------------------------------------------------------------------------ moving operators
 MV_OPS = ['moving_sum', 'moving_mean', 'moving_var', 'moving_std', 'moving_skew', 'moving_kurtosis']
+MV_COQ = dict(zip(MV_OPS, ['OpSum', 'OpMean', 'OpVar', 'OpStd', 'OpSkew', 'OpKurt']))
 
 
-class MovingKind(Kind):
+class MovingKind(Base):
     name = 'moving'
     header = HDR_S
     case_type = 'mv_case'
     check_fn = 'mv_check'
     explain_fn = 'mv_expected'
     shard = 40
-    rule = ('moving_sum/mean/var/std/skew/kurtosis on 1-D..4-D arrays (float64/float32/int8/uint8/int16/int32/int64, dyadic or '
-            'integer values, ties, constant lanes, ramps) x EVERY axis (also given as negative) x EVERY window 1..len(axis); '
-            'all small shapes with dims <= 3 (2-D) exhaustively; non-trivial = window >= 2 and at least two distinct values')
+    rule = ('moving_sum/mean/var/std/skew/kurtosis on 1-D..4-D arrays (float64/float32 and every integer width, dyadic or '
+            'integer values, ties, constant lanes, ramps) x EVERY axis (also negative, also a numpy integer) x EVERY window 1..len(axis); '
+            'the same values as strided / negative-stride / Fortran / transposed / offset / column / read-only / zero-stride / big-endian '
+            'arrays; non-trivial = window >= 2 and at least two distinct values')
 
     def gen(self, rng, tier):
         shapes = [[1], [2], [3], [5], [8], [1, 1], [1, 4], [4, 1], [2, 3], [3, 2], [3, 3], [2, 2, 2], [2, 3, 4], [4, 1, 3], [1, 2, 1, 3]]
@@ -97,76 +312,118 @@ class MovingKind(Kind):
         if tier != 'quick':
             shapes += [[12], [17], [3, 9], [9, 2], [2, 5, 3], [2, 2, 2, 3]]
         for k, shape in enumerate(shapes):
-            dtype = ['float64', 'float32', 'int16', 'uint8', 'int32', 'int8', 'int64'][k % 7] if k >= 3 else 'float64'
+            dtype = ALL_DTYPES[k % len(ALL_DTYPES)] if k >= 3 else 'float64'
             mode = ['rand', 'small', 'ramp'][k % 3]
             vals, den = _rand_values(rng, int(np.prod(shape)), dtype, mode)
-            if dtype == 'int8':
-                vals = [max(-100, min(100, v)) for v in vals]
             nd = len(shape)
             for axis in range(nd):
                 for w in range(1, shape[axis] + 1):
                     yield {'shape': shape, 'dtype': dtype, 'values': vals, 'den': den, 'w': w,
-                           'axis': axis if rng.random() < 0.6 else axis - nd}
+                           'axis': axis if rng.random() < 0.6 else axis - nd, 'axis_np': rng.random() < 0.2}
+        # memory layouts / dtype representations of the same values
+        nl = 2 if tier == 'quick' else 8
+        for layout in LAYOUTS + ['zerostride']:
+            for k in range(nl):
+                nd = rng.randint(1, 3)
+                shape = [rng.randint(2, 5) for _ in range(nd)]
+                dtype = ['float64', 'float64', 'int16', 'float32', 'uint8', 'int64'][k % 6]
+                vals, den = _rand_values(rng, int(np.prod(shape)), dtype, 'rand')
+                if layout == 'zerostride':
+                    inner = int(np.prod(shape[1:]))
+                    vals = vals[:inner] * shape[0]
+                axis = rng.randrange(nd)
+                for w in sorted({1, 2, shape[axis], rng.randint(1, shape[axis])}):
+                    if w <= shape[axis]:
+                        yield {'shape': shape, 'dtype': dtype, 'values': vals, 'den': den, 'w': w, 'axis': axis, 'layout': layout}
 
-    def run(self, case):
+    def build(self, case):
+        return [_relayout(_arr(case), case.get('layout'))]
+
+    def invoke(self, arrs, case, keep=None):
         from scared import signal_processing as sp
-        a = _arr(case)
-        before = a.copy()
-        out = {}
-        with warnings.catch_warnings():
-            warnings.simplefilter('ignore')
-            for op in MV_OPS:
-                r = getattr(sp, op)(a, case['w'], case['axis'])
-                out[op] = {'shape': list(r.shape), 'values': _flat(r)}
-        out['input_unchanged'] = bool(np.array_equal(a, before))
+        a = arrs[0]
+        axis = np.int64(case['axis']) if case.get('axis_np') else case['axis']
+        out = {'ops': []}
+        for op in case.get('ops', MV_OPS):
+            r = getattr(sp, op)(a, case['w'], axis)
+            if keep is not None:
+                keep.append(r)
+            out['ops'].append({'op': op, 'shape': list(r.shape), 'values': _flat(r)})
         return out
 
     def coq(self, case, obs):
         nd = len(case['shape'])
         axis = case['axis'] % nd
         inp = _flat(_arr(case))
-        if 'raised' in obs:
-            ob = '[]'
-        else:
-            ob = C.coq_list([obs[op] for op in MV_OPS],
-                            lambda o: '(%s, %s)' % (C.coq_list(o['shape'], C.coq_nat), C.coq_list(o['values'], F)))
+        ob = C.coq_list(obs.get('ops', []), lambda o: '(%s, (%s, %s))' % (MV_COQ[o['op']], C.coq_list(o['shape'], C.coq_nat),
+                                                                          C.coq_list(o['values'], F)))
         return '{| mv_shape := %s; mv_axis := %s; mv_w := %s; mv_in := %s; mv_obs := %s |}' % (
             C.coq_list(case['shape'], C.coq_nat), C.coq_nat(axis), C.coq_nat(case['w']), C.coq_list(inp, F), ob)
-
-    def oracle(self, case, obs):
-        if 'raised' in obs:
-            return f'moving operator raised {obs["raised"]}: {obs["msg"]}'
-        if not obs['input_unchanged']:
-            return 'input array modified'
-        return None
 
     def nontrivial(self, case, obs):
         return case['w'] >= 2 and len(set(case['values'])) >= 2
 
     def features(self, case, obs):
-        return {'ndim': len(case['shape']), 'dtype': case['dtype'], 'w': min(case['w'], 6), 'axis_negative': case['axis'] < 0}
+        return {'ndim': len(case['shape']), 'dtype': case['dtype'], 'w': min(case['w'], 6), 'axis_negative': case['axis'] < 0,
+                'layout': case.get('layout', 'c')}
 
     def tags(self, case, obs):
         return ['moving']
 
     def sample(self, case, obs):
-        o = {k: {'shape': v['shape'], 'values': v['values'][:6]} for k, v in obs.items() if isinstance(v, dict)}
-        return {'case': case, 'observed': o}
+        return {'case': case, 'observed': [{'op': o['op'], 'shape': o['shape'], 'values': o['values'][:6]} for o in obs.get('ops', [])]}
 
     def shrink(self, case):
         # keep one lane: reduce the other dimensions to 1
         shape = case['shape']
         nd = len(shape)
         axis = case['axis'] % nd
-        if nd > 1:
+        if nd > 1 and case.get('layout') in (None, 'c'):
             a = (np.array(case['values']).reshape(shape))
             idx = tuple(slice(None) if d == axis else 0 for d in range(nd))
             lane = a[idx]
             yield dict(case, shape=[int(lane.shape[0])], values=[int(v) for v in lane], axis=0)
 
+    def histories(self, rng, tier):
+        n = 10 if tier == 'quick' else 60
+        for op in MV_OPS:
+            for k in range(n):
+                nd = 1 if k % 3 else 2
+                shape = [rng.randint(3, 8)] if nd == 1 else [rng.randint(2, 4), rng.randint(2, 4)]
+                dtype = ['float64', 'float64', 'int16', 'float32', 'uint8'][k % 5]
+                v0, den = _rand_values(rng, int(np.prod(shape)), dtype, 'rand')
+                v0 = [8 * (v // 8) for v in v0] if den == 8 else v0
+                v1 = _perturb(rng, v0, dtype)
+                if den == 8:
+                    v1 = [8 * (v // 8) for v in v1]
+                axis = rng.randrange(nd)
+                L = shape[axis]
+                w, w2 = rng.randint(2, L), rng.randint(1, L)
+                op2 = rng.choice(MV_OPS)
+                layout = rng.choice(WRITABLE_LAYOUTS)
+
+                def st(buf, vals, ops, ww, ax=axis):
+                    return {'buf': buf, 'case': {'shape': shape, 'dtype': dtype, 'values': vals, 'den': den, 'w': min(ww, shape[ax]), 'axis': ax,
+                                                 'ops': ops, 'layout': layout}}
+                pat = k % 5
+                if pat == 0:
+                    yield [st('A', v0, [op], w), st('A', v1, [op], w)]
+                elif pat == 1:
+                    yield [st('A', v0, [op], w), st('A', v1, [op], w2), st('A', v1, [op2], w)]
+                elif pat == 2:
+                    yield [st('A', v0, [op], w), st('B', v0, [op], w), st('A', v1, [op], w), st('B', v1, [op2], w2)]
+                elif pat == 3:
+                    ax2 = (axis + 1) % nd
+                    yield [st('A', v0, [op], w), st('A', v0, [op2], w2, ax2), st('A', v1, [op], w), st('A', v1, [op, op2], w2)]
+                else:
+                    yield [st('A', v0, [op, op2], w), st('A', v1, [op2, op], w), st('A', v0, [op], w)]
+
 
 # ------------------------------------------------------------------------------------------------ pattern detection
-class PatternKind(Kind):
+PD_FNS = ['correlation', 'distance', 'bcdc']
+
+
+class PatternKind(Base):
     name = 'pattern'
     header = HDR_S
     case_type = 'pd_case'
@@ -175,89 +432,144 @@ class PatternKind(Kind):
     shard = 10
     rule = ('correlation / distance / bcdc of 1-D traces (len 2..24) with every pattern length 1..len-1 for the short ones, random '
             'for the others; embedded pattern (distance 0), negated pattern (x+y constant: bcdc infinite), constant windows and '
-            'constant patterns (undefined correlation), ties; non-trivial = pattern length >= 2 and non-constant trace and pattern')
+            'constant patterns (undefined correlation), ties; every integer width and both float dtypes, mixed dtypes; trace and '
+            'pattern as strided / negative-stride / offset / column / read-only / zero-stride / big-endian arrays; non-trivial = pattern '
+            'length >= 2 and non-constant trace and pattern')
 
     def gen(self, rng, tier):
         n_short = 12 if tier == 'quick' else 60
         for k in range(n_short):
             m = rng.randint(2, 7)
-            dtype = ['float64', 'int16', 'float32', 'uint8'][k % 4]
+            dtype = ALL_DTYPES[k % len(ALL_DTYPES)]
             x, den = _rand_values(rng, m, dtype, ['rand', 'small'][k % 2])
             for n in range(1, m):
-                y = [rng.choice(x) if rng.random() < 0.5 else rng.randint(-8, 8) for _ in range(n)]
-                if dtype == 'uint8':
+                y = [rng.choice(x) if rng.random() < 0.5 else den * rng.randint(-8, 8) for _ in range(n)]
+                if dtype.startswith('uint'):
                     y = [abs(v) for v in y]
                 yield {'x': x, 'y': y, 'den': den, 'dtype': dtype}
         n_long = 40 if tier == 'quick' else 500
         for k in range(n_long):
             m = rng.randint(4, 24)
             n = rng.randint(1, m - 1)
-            dtype = ['float64', 'int16', 'float32', 'int32'][k % 4]
+            dtype = ['float64', 'int16', 'float32', 'int32', 'uint16', 'int8', 'uint64'][k % 7]
             x, den = _rand_values(rng, m, dtype, ['rand', 'small', 'ramp'][k % 3])
             kind = k % 5
             pos = rng.randint(0, m - n)
+            ydtype = None
             if kind == 0:      # the pattern is a piece of the trace
                 y = x[pos:pos + n]
             elif kind == 1:    # negated piece: x + y constant on that window
-                y = [-v for v in x[pos:pos + n]] if not dtype.startswith('uint') else x[pos:pos + n]
+                y = [-v for v in x[pos:pos + n]]
+                ydtype = 'int16' if dtype.startswith('uint') else None
             elif kind == 2:    # constant pattern
-                y = [rng.randint(-5, 5)] * n
+                y = [den * rng.randint(0, 5)] * n
             else:
-                y = [rng.randint(-20, 20) for _ in range(n)]
-            yield {'x': x, 'y': y, 'den': den, 'dtype': dtype}
+                y = [den * rng.randint(0, 20) for _ in range(n)]
+                ydtype = rng.choice([None, 'float64', 'int32'])
+            yield {'x': x, 'y': y, 'den': den, 'dtype': dtype, 'ydtype': ydtype}
+        # memory layouts of trace and pattern
+        nl = 3 if tier == 'quick' else 12
+        for layout in [l for l in LAYOUTS if l not in ('fortran', 'transposed')] + ['zerostride']:
+            for k in range(nl):
+                m = rng.randint(4, 14)
+                n = rng.randint(1, m - 1)
+                dtype = ['float64', 'float64', 'int16', 'float32'][k % 4]
+                x, den = _rand_values(rng, m, dtype, 'rand')
+                y = [den * rng.randint(-8, 8) for _ in range(n)]
+                if layout == 'zerostride':
+                    if k % 2:
+                        x = [x[0]] * m
+                    else:
+                        y = [y[0]] * n
+                    yield {'x': x, 'y': y, 'den': den, 'dtype': dtype, 'layout': 'zerostride' if k % 2 else 'c',
+                           'ylayout': 'c' if k % 2 else 'zerostride'}
+                else:
+                    yield {'x': x, 'y': y, 'den': den, 'dtype': dtype, 'layout': layout, 'ylayout': [layout, 'c', 'strided'][k % 3]}
 
-    def run(self, case):
+    def build(self, case):
+        x = _logical(case['x'], case['den'], case['dtype'], [len(case['x'])])
+        y = _logical(case['y'], case['den'], case.get('ydtype') or case['dtype'], [len(case['y'])])
+        return [_relayout(x, case.get('layout')), _relayout(y, case.get('ylayout'))]
+
+    def invoke(self, arrs, case, keep=None):
         from scared import signal_processing as sp
-        x = (np.array(case['x'], dtype='float64') / case['den']).astype(case['dtype'])
-        y = (np.array(case['y'], dtype='float64') / case['den']).astype(case['dtype'] if not case['dtype'].startswith('uint') else 'int16')
-        xb, yb = x.copy(), y.copy()
-        with warnings.catch_warnings():
-            warnings.simplefilter('ignore')
-            out = {'corr': _flat(sp.correlation(x, y)), 'dist': _flat(sp.distance(x, y)), 'bcdc': _flat(sp.bcdc(x, y))}
-        out['input_unchanged'] = bool(np.array_equal(x, xb) and np.array_equal(y, yb))
+        x, y = arrs
+        out = {}
+        for fn in case.get('fns', PD_FNS):
+            r = getattr(sp, fn)(x, y)
+            if keep is not None:
+                keep.append(r)
+            out[fn] = _flat(r)
         return out
 
     def coq(self, case, obs):
         x = [v / case['den'] for v in case['x']]
         y = [v / case['den'] for v in case['y']]
-        return '{| pd_x := %s; pd_y := %s; pd_corr := %s; pd_dist := %s; pd_bcdc := %s |}' % (
-            C.coq_list(x, F), C.coq_list(y, F), C.coq_list(obs.get('corr', []), F), C.coq_list(obs.get('dist', []), F),
-            C.coq_list(obs.get('bcdc', []), F))
 
-    def oracle(self, case, obs):
-        if 'raised' in obs:
-            return f'pattern detection raised {obs["raised"]}: {obs["msg"]}'
-        if not obs['input_unchanged']:
-            return 'input array modified'
-        return None
+        def opt(k):
+            return '(Some %s)' % C.coq_list(obs[k], F) if k in obs else 'None'
+        return '{| pd_x := %s; pd_y := %s; pd_corr := %s; pd_dist := %s; pd_bcdc := %s |}' % (
+            C.coq_list(x, F), C.coq_list(y, F), opt('correlation'), opt('distance'), opt('bcdc'))
 
     def nontrivial(self, case, obs):
         return len(case['y']) >= 2 and len(set(case['x'])) >= 2 and len(set(case['y'])) >= 2
 
     def features(self, case, obs):
-        return {'n': min(len(case['y']), 8), 'dtype': case['dtype'],
-                'undefined_corr': sum(1 for v in obs.get('corr', []) if v != v or abs(v) == float('inf')) > 0}
+        return {'n': min(len(case['y']), 8), 'dtype': case['dtype'], 'layout': case.get('layout', 'c'),
+                'undefined_corr': sum(1 for v in obs.get('correlation', []) if v != v or abs(v) == float('inf')) > 0}
 
     def tags(self, case, obs):
         return ['pattern']
 
     def shrink(self, case):
         x, y = case['x'], case['y']
-        if len(x) > len(y) + 1:
+        if len(x) > len(y) + 1 and case.get('layout') != 'zerostride':
             yield dict(case, x=x[1:])
             yield dict(case, x=x[:-1])
 
+    def histories(self, rng, tier):
+        n = 30 if tier == 'quick' else 200
+        for k in range(n):
+            m = rng.randint(4, 12)
+            nn = rng.randint(1, m - 1)
+            dtype = ['float64', 'float64', 'int16', 'float32'][k % 4]
+            x0, den = _rand_values(rng, m, dtype, 'rand')
+            x0 = [den * (v // den) for v in x0]
+            x1 = [den * (v // den) for v in _perturb(rng, x0, dtype)]
+            y0 = [den * rng.randint(-8, 8) for _ in range(nn)]
+            y1 = [den * rng.randint(-8, 8) for _ in range(nn)]
+            layout = rng.choice(WRITABLE_LAYOUTS)
+            fns = rng.sample(PD_FNS, rng.randint(1, 3))
+
+            def st(buf, x, y, f):
+                return {'buf': buf, 'case': {'x': x, 'y': y, 'den': den, 'dtype': dtype, 'layout': layout, 'fns': f}}
+            pat = k % 4
+            if pat == 0:
+                yield [st('A', x0, y0, fns), st('A', x1, y0, fns)]
+            elif pat == 1:
+                yield [st('A', x0, y0, fns), st('A', x0, y1, fns), st('A', x1, y1, PD_FNS)]
+            elif pat == 2:
+                yield [st('A', x0, y0, fns), st('B', x0, y0, fns), st('A', x1, y0, fns), st('B', x1, y1, fns)]
+            else:
+                yield [st('A', x0, y0, [f]) for f in fns] + [st('A', x1, y0, [f]) for f in fns][:2]
+
 
 # ------------------------------------------------------------------------------------------------ pad
-class PadKind(Kind):
+def _form(v, form):
+    return tuple(v) if form == 'tuple' else np.array(v, dtype='int64') if form == 'ndarray' else list(v)
+
+
+class PadKind(Base):
     name = 'pad'
     header = HDR_S
     case_type = 'pad_case'
     check_fn = 'pad_check'
     explain_fn = 'pad_expected'
     shard = 150
-    rule = ('pad(array, target_shape, offsets, pad_with) on 1-D..3-D integer / dyadic arrays: every offset of every small 1-D and '
-            '2-D placement, offsets None, target too small (ValueError expected); non-trivial = target strictly larger than the array')
+    rule = ('pad(array, target_shape, offsets, pad_with) on 1-D..3-D arrays of every integer width and both float dtypes: every offset of '
+            'every small 1-D and 2-D placement, offsets None, target too small (ValueError expected); target / offsets as list, tuple, '
+            'ndarray, pad_with as Python or numpy scalar; the array as strided / negative-stride / Fortran / transposed / offset / column / '
+            'read-only / zero-stride / big-endian; non-trivial = target strictly larger than the array')
 
     def gen(self, rng, tier):
         # every placement of small 1-D and 2-D arrays
@@ -276,29 +588,51 @@ class PadKind(Kind):
             offs = [rng.randint(0, 3) for _ in range(nd)]
             tgt = [s + o + rng.choice([0, 0, 1, 2, -1 if k % 7 == 0 else 0]) for s, o in zip(shape, offs)]
             tgt = [max(t, 0) for t in tgt]
-            yield self._case(rng, shape, tgt, offs if k % 9 else None)
+            c = self._case(rng, shape, tgt, offs if k % 9 else None)
+            c.update(tform=rng.choice(['list', 'tuple', 'ndarray']), oform=rng.choice(['list', 'tuple', 'ndarray']), pw_np=rng.random() < 0.3)
+            yield c
+        nl = 3 if tier == 'quick' else 12
+        for layout in LAYOUTS + ['zerostride']:
+            for k in range(nl):
+                nd = rng.randint(1, 3)
+                shape = [rng.randint(2, 4) for _ in range(nd)]
+                offs = [rng.randint(0, 2) for _ in range(nd)]
+                tgt = [s + o + rng.randint(0, 2) for s, o in zip(shape, offs)]
+                c = self._case(rng, shape, tgt, offs)
+                if layout == 'zerostride':
+                    inner = int(np.prod(shape[1:]))
+                    c['values'] = c['values'][:inner] * shape[0]
+                c['layout'] = layout
+                yield c
 
     @staticmethod
     def _case(rng, shape, tgt, offs):
-        dtype = rng.choice(['int16', 'uint8', 'int64', 'float64', 'float32'])
-        lo = 0 if dtype == 'uint8' else -50
-        return {'shape': shape, 'target': tgt, 'offsets': offs, 'dtype': dtype,
-                'values': [rng.randint(max(lo, 1), 50) for _ in range(int(np.prod(shape)))],
-                'pad_with': rng.choice([0, 0, 0, 7, 0 if dtype == 'uint8' else -3])}
+        dtype = rng.choice(ALL_DTYPES)
+        lo = 1 if dtype.startswith('uint') else -50
+        return {'shape': shape, 'target': tgt, 'offsets': offs, 'dtype': dtype, 'den': 1,
+                'values': [rng.randint(lo, 50) for _ in range(int(np.prod(shape)))],
+                'pad_with': rng.choice([0, 0, 0, 7, 0 if dtype.startswith('uint') else -3])}
 
-    def run(self, case):
+    def build(self, case):
+        return [_relayout(_arr(case), case.get('layout'))]
+
+    def invoke(self, arrs, case, keep=None):
         from scared import signal_processing as sp
-        a = np.array(case['values'], dtype=case['dtype']).reshape(case['shape'])
-        before = a.copy()
+        a = arrs[0]
         kw = {}
         if case['pad_with'] != 0:
-            kw['pad_with'] = case['pad_with']
+            kw['pad_with'] = np.dtype(case['dtype']).type(case['pad_with']) if case.get('pw_np') else case['pad_with']
+        tgt = _form(case['target'], case.get('tform'))
         try:
-            r = sp.pad(a, case['target'], case['offsets'], **kw) if case['offsets'] is not None else sp.pad(a, case['target'], **kw)
+            if case['offsets'] is not None:
+                r = sp.pad(a, tgt, _form(case['offsets'], case.get('oform')), **kw)
+            else:
+                r = sp.pad(a, tgt, **kw)
         except ValueError as e:
             return {'rejected': 'ValueError', 'msg': str(e)[:100]}
-        return {'shape': list(r.shape), 'values': [int(v) for v in np.ascontiguousarray(r).reshape(-1).tolist()],
-                'dtype_kept': str(r.dtype) == case['dtype'], 'input_unchanged': bool(np.array_equal(a, before)),
+        if keep is not None:
+            keep.append(r)
+        return {'shape': list(r.shape), 'values': _flat_int(r), 'dtype_kept': (r.dtype.kind, r.dtype.itemsize) == (a.dtype.kind, a.dtype.itemsize),
                 'integral': bool(np.all(r == np.round(r)))}
 
     def coq(self, case, obs):
@@ -308,15 +642,11 @@ class PadKind(Kind):
             C.coq_list(case['shape'], C.coq_nat), C.coq_list(case['values'], C.coq_z), C.coq_list(case['target'], C.coq_nat),
             C.coq_list(offs, C.coq_nat), C.coq_z(case['pad_with']), ob)
 
-    def oracle(self, case, obs):
-        if 'raised' in obs:
-            return f'pad raised {obs["raised"]}: {obs["msg"]}'
+    def extra_oracle(self, case, obs):
         if 'rejected' in obs:
             return None
         if obs['shape'] != case['target']:
             return f'pad returned shape {obs["shape"]} instead of {case["target"]}'
-        if not obs['input_unchanged']:
-            return 'input array modified'
         if not obs['integral'] or not obs['dtype_kept']:
             return 'pad changed the dtype or the values'
         return None
@@ -325,17 +655,29 @@ class PadKind(Kind):
         return 'values' in obs and int(np.prod(case['target'])) > len(case['values'])
 
     def features(self, case, obs):
-        return {'ndim': len(case['shape']), 'rejected': 'rejected' in obs, 'offsets_none': case['offsets'] is None}
+        return {'ndim': len(case['shape']), 'rejected': 'rejected' in obs, 'offsets_none': case['offsets'] is None, 'layout': case.get('layout', 'c')}
 
     def tags(self, case, obs):
         return ['pad']
 
+    def histories(self, rng, tier):
+        n = 20 if tier == 'quick' else 150
+        for k in range(n):
+            nd = rng.randint(1, 2)
+            shape = [rng.randint(1, 4) for _ in range(nd)]
+            c0 = self._case(rng, shape, [s + 3 for s in shape], [rng.randint(0, 3) for _ in shape])
+            c0['layout'] = rng.choice(WRITABLE_LAYOUTS)
+            c1 = dict(c0, values=[v + 1 for v in c0['values']])
+            c2 = dict(c1, offsets=[rng.randint(0, 3) for _ in shape], pad_with=7)
+            yield [{'buf': 'A', 'case': c0}, {'buf': 'A', 'case': c1}, {'buf': 'B', 'case': c0}, {'buf': 'A', 'case': c2}][:2 + k % 3]
+
 
 # ------------------------------------------------------------------------------------------------ extract_around_indexes
 EX_MODES = {'stack': 'ExStack', 'concatenate': 'ExConcat', 'average': 'ExAverage'}
+IDX_DTYPES = ['int64', 'int32', 'int16', 'int8', 'uint8', 'uint16', 'uint32']        # uint64 indexes are refused by numpy.take
 
 
-class ExtractKind(Kind):
+class ExtractKind(Base):
     name = 'extract'
     header = HDR_S
     case_type = 'ex_case'
@@ -343,40 +685,65 @@ class ExtractKind(Kind):
     explain_fn = 'ex_expected'
     shard = 100
     rule = ('extract_around_indexes(data, indexes, before, after, mode) for the three modes: in-range indexes (first / last admissible '
-            'position, repeats, unsorted, empty index array), before/after 0..4, int and float data; also negative positions (numpy '
-            'wrap-around) and positions past the end (IndexError); non-trivial = at least two indexes and before + after >= 1')
+            'position, repeats, unsorted, empty index array), before/after 0..4, data of every integer width and both float dtypes, index '
+            'arrays of every integer dtype numpy.take accepts; also negative positions (numpy wrap-around) and positions past the end '
+            '(IndexError); data and indexes as strided / negative-stride / offset / column / read-only / zero-stride / big-endian arrays; '
+            'non-trivial = at least two indexes and before + after >= 1')
 
     def gen(self, rng, tier):
         n = 70 if tier == 'quick' else 900
         for k in range(n):
-            mode = ['stack', 'concatenate', 'average'][k % 3]
-            L = rng.randint(1, 14)
-            dtype = rng.choice(['float64', 'int16', 'uint8', 'float32'])
-            vals, den = _rand_values(rng, L, dtype, 'rand')
-            before, after = rng.randint(0, 4), rng.randint(0, 4)
-            lo, hi = before, L - 1 - after
-            kind = k % 10
-            if kind == 9 or lo > hi:           # out of range somewhere (wrap-around or IndexError)
-                idx = [rng.randint(-L - 2, L + 2) for _ in range(rng.randint(1, 4))]
-            elif kind == 8:
-                idx = []
-            else:
-                idx = [rng.choice([lo, hi, rng.randint(lo, hi)]) for _ in range(rng.randint(1, 5))]
-            yield {'values': vals, 'den': den, 'dtype': dtype, 'shape': [L], 'indexes': idx, 'before': before, 'after': after,
-                   'mode': mode, 'idx_dtype': rng.choice(['int64', 'int32'])}
+            yield self._case(rng, k)
+        nl = 3 if tier == 'quick' else 12
+        for layout in [l for l in LAYOUTS if l not in ('fortran', 'transposed')] + ['zerostride']:
+            for k in range(nl):
+                c = self._case(rng, k % 8)
+                if layout == 'zerostride':
+                    if k % 2 and c['indexes']:
+                        c['indexes'] = [c['indexes'][0]] * len(c['indexes'])
+                        c['ilayout'] = layout
+                    else:
+                        c['values'] = [c['values'][0]] * len(c['values'])
+                        c['layout'] = layout
+                else:
+                    c['layout'] = layout
+                    c['ilayout'] = [layout, 'c', 'strided'][k % 3]
+                yield c
 
-    def run(self, case):
+    @staticmethod
+    def _case(rng, k):
+        mode = ['stack', 'concatenate', 'average'][k % 3]
+        L = rng.randint(1, 14)
+        dtype = rng.choice(ALL_DTYPES)
+        vals, den = _rand_values(rng, L, dtype, 'rand')
+        before, after = rng.randint(0, 4), rng.randint(0, 4)
+        lo, hi = before, L - 1 - after
+        kind = k % 10
+        idt = rng.choice(IDX_DTYPES)
+        if kind == 9 or lo > hi:           # out of range somewhere (wrap-around or IndexError)
+            idx = [rng.randint(-L - 2, L + 2) for _ in range(rng.randint(1, 4))]
+            idt = rng.choice(['int64', 'int32', 'int8'])
+        elif kind == 8:
+            idx = []
+        else:
+            idx = [rng.choice([lo, hi, rng.randint(lo, hi)]) for _ in range(rng.randint(1, 5))]
+        return {'values': vals, 'den': den, 'dtype': dtype, 'shape': [L], 'indexes': idx, 'before': before, 'after': after,
+                'mode': mode, 'idx_dtype': idt}
+
+    def build(self, case):
+        return [_relayout(_arr(case), case.get('layout')),
+                _relayout(np.array(case['indexes'], dtype=case['idx_dtype']), case.get('ilayout'))]
+
+    def invoke(self, arrs, case, keep=None):
         from scared import signal_processing as sp
-        a = _arr(case)
-        idx = np.array(case['indexes'], dtype=case['idx_dtype'])
-        before = a.copy()
-        with warnings.catch_warnings():
-            warnings.simplefilter('ignore')
-            try:
-                r = sp.extract_around_indexes(a, idx, case['before'], case['after'], sp.ExtractMode(case['mode']))
-            except IndexError as e:
-                return {'rejected': 'IndexError', 'msg': str(e)[:100]}
-        return {'shape': list(r.shape), 'values': _flat(r), 'input_unchanged': bool(np.array_equal(a, before))}
+        a, idx = arrs
+        try:
+            r = sp.extract_around_indexes(a, idx, case['before'], case['after'], sp.ExtractMode(case['mode']))
+        except IndexError as e:
+            return {'rejected': 'IndexError', 'msg': str(e)[:100]}
+        if keep is not None:
+            keep.append(r)
+        return {'shape': list(r.shape), 'values': _flat(r)}
 
     def coq(self, case, obs):
         ob = 'None' if ('rejected' in obs or 'raised' in obs) else '(Some (%s, %s))' % (
@@ -385,18 +752,11 @@ class ExtractKind(Kind):
             C.coq_list(_flat(_arr(case)), F), 'F32' if case['dtype'] == 'float32' else 'F64', C.coq_list(case['indexes'], C.coq_z), C.coq_nat(case['before']), C.coq_nat(case['after']),
             EX_MODES[case['mode']], ob)
 
-    def oracle(self, case, obs):
-        if 'raised' in obs:
-            return f'extract_around_indexes raised {obs["raised"]}: {obs["msg"]}'
-        if 'values' in obs and not obs['input_unchanged']:
-            return 'input array modified'
-        return None
-
     def nontrivial(self, case, obs):
         return 'values' in obs and len(case['indexes']) >= 2 and case['before'] + case['after'] >= 1
 
     def features(self, case, obs):
-        return {'mode': case['mode'], 'rejected': 'rejected' in obs, 'n_idx': min(len(case['indexes']), 5)}
+        return {'mode': case['mode'], 'rejected': 'rejected' in obs, 'n_idx': min(len(case['indexes']), 5), 'layout': case.get('layout', 'c')}
 
     def tags(self, case, obs):
         return ['extract', 'extract_' + case['mode']]
@@ -404,8 +764,21 @@ class ExtractKind(Kind):
     def shrink(self, case):
         idx = case['indexes']
         for i in range(len(idx)):
-            if len(idx) > 1:
+            if len(idx) > 1 and case.get('ilayout') != 'zerostride':
                 yield dict(case, indexes=idx[:i] + idx[i + 1:])
+
+    def histories(self, rng, tier):
+        n = 24 if tier == 'quick' else 150
+        for k in range(n):
+            c0 = self._case(rng, k % 8)
+            if not c0['indexes']:
+                continue
+            c0['layout'] = rng.choice(WRITABLE_LAYOUTS)
+            c0['idx_dtype'] = 'int64'
+            c1 = dict(c0, values=_perturb(rng, c0['values'], c0['dtype']))
+            lo, hi = c0['before'], c0['shape'][0] - 1 - c0['after']
+            c2 = dict(c1, indexes=[rng.randint(lo, hi) if lo <= hi else i for i in c0['indexes']], mode=rng.choice(list(EX_MODES)))
+            yield [{'buf': 'A', 'case': c0}, {'buf': 'A', 'case': c1}, {'buf': 'A', 'case': c2}, {'buf': 'B', 'case': c0}][:2 + k % 3]
 
 
 # ------------------------------------------------------------------------------------------------ find_peaks / find_width
@@ -425,13 +798,34 @@ def _zheight(h):
 
 
 def _data_array(case):
-    den = case['den']
-    if den == 1 and case['dtype'].startswith(('int', 'uint')):
-        return np.array(case['data'], dtype=case['dtype'])
-    return (np.array(case['data'], dtype='float64') / den).astype(case['dtype'])
+    """1-D data: numerators / den; integer dtypes require integral values."""
+    return _relayout(_logical(case['data'], case['den'], case['dtype'], [len(case['data'])]), case.get('layout'))
 
 
-class PeaksKind(Kind):
+def _scalar(num, den, form):
+    """A threshold / height numerator over den as the object given to the code: Python float (default), Python int when
+    form == 'int' and the value is integral, numpy.float64 when form == 'np'."""
+    if form == 'int' and num % den == 0:
+        return num // den
+    v = num / den            # exact: dyadic value
+    return np.float64(v) if form == 'np' else v
+
+
+ULP_DEN = 2 ** 53          # small integers and their float64 neighbours are integers over 2^53
+
+
+def _ulp_neighbours(v):
+    """Numerators over 2^53 of: the float64 just below v, v, the float64 just above v (v a small non-negative integer;
+    for 0 the values -2^-53, 0, 2^-53)."""
+    import math
+    if v == 0:
+        return [-1, 0, 1]
+    up = int((math.nextafter(float(v), math.inf) - v) * ULP_DEN)
+    dn = int((v - math.nextafter(float(v), -math.inf)) * ULP_DEN)
+    return [v * ULP_DEN - dn, v * ULP_DEN, v * ULP_DEN + up]
+
+
+class PeaksKind(Base):
     name = 'find_peaks'
     header = HDR_P
     case_type = 'pk_case'
@@ -440,24 +834,29 @@ class PeaksKind(Kind):
     explain_fn = 'pk_expected'
     shard = 400
     rule = ('find_peaks(data, d, h): EVERY 1-D signal of length 0..7 (quick) / 0..9 (thorough) over a 3-value alphabet x every '
-            'distance 0..len+1 x heights {-inf, below, each value, between, above, +inf}; 4-value alphabet sampled (quick) / every signal of '
-            'length 0..8 (thorough); plateaus, ties, '
-            'peaks at both ends and every last sample are all in that block; random signals of length 10..80 with random distances '
-            'and heights (int and float dtypes); the D10 regression signal; check_fn: candidates only, ascending and >= d apart, every '
-            'dropped candidate dominated (property level); corr_fn: equality with the repaired scan (correspondence level); non-trivial = at least two candidates and d >= 2')
+            'distance 0..len+1 x heights {-inf, negative, below, each value, between, above, +inf}, the dtype cycling through float64, '
+            'float32 and the 8 integer dtypes (so integer samples meet fractional and negative heights, given as Python float / int / '
+            'numpy.float64); 4-value alphabet sampled (quick) / every signal of length 0..8 (thorough); heights one float64 ulp below / '
+            'on / above the samples; the signal as strided / negative-stride / offset / column / read-only / zero-stride array; plateaus, '
+            'ties, peaks at both ends and every last sample are all in that block; random signals of length 10..80 with random '
+            'distances and heights; the D10 regression signal; check_fn: candidates only, ascending and >= d apart, every '
+            'dropped candidate dominated (property level); corr_fn: equality with the repaired scan (correspondence level); '
+            'non-trivial = at least two candidates and d >= 2')
 
     def gen(self, rng, tier):
-        heights3 = ['-inf', 1, 2, 3, 4, 5, '+inf']          # numerators over den = 2 : data values 0, 1, 2 are 0, 2, 4
+        heights3 = ['-inf', -3, 1, 2, 3, 4, 5, '+inf']          # numerators over den = 2 : data values 0, 1, 2 are 0, 2, 4
         # D10 regression signal and variants of its last sample
         for last in (4, 0, 1, 7):
-            yield {'data': [2, 0, 4, 0, 6, 0, 0, 0, 0, 0, 0, 2 * last], 'den': 2, 'dtype': 'float64',
+            yield {'data': [2, 0, 4, 0, 6, 0, 0, 0, 0, 0, 0, 2 * last], 'den': 2, 'dtype': 'float64', 'grid': None,
                    'queries': [[d, h] for d in range(0, 14) for h in ('-inf', 1)]}
         nmax = 7 if tier == 'quick' else 9
-        for sig in _signals([0, 2, 4], nmax):
+        for k, sig in enumerate(_signals([0, 2, 4], nmax)):
             n = len(sig)
-            hs = heights3 if n <= 5 else ['-inf', 2, 3, 4, '+inf'] if n <= 7 else ['-inf', 2, 3, 4]   # 1 ~ 2 and 5 ~ +inf select the same samples
-            yield self._grid_case(sig, 2, 'float64' if n % 2 else 'float32', hs, n + 2)
-        # 4-value alphabet: sampled (quick) / every signal of length <= 8 with three of the six height positions (thorough)
+            hs = heights3 if n <= 5 else ['-inf', 1, 2, 3, 4] if n <= 7 else ['-inf', 2, 3, 4]
+            c = self._grid_case(sig, 2, ALL_DTYPES[k % len(ALL_DTYPES)], hs, n + 2)
+            c['hform'] = ['float', 'np', 'int'][k % 3]
+            yield c
+        # 4-value alphabet: sampled (quick) / every signal of length <= 8 with two of the six height positions (thorough)
         h4 = ['-inf', 0, 1, 2, 3, 4]
         if tier == 'quick':
             for _ in range(2500):
@@ -467,7 +866,23 @@ class PeaksKind(Kind):
         else:
             for sig in _signals([0, 1, 2, 3], 8):
                 n = len(sig)
-                yield self._grid_case(sig, 1, ['int16', 'uint8', 'float64', 'int64'][n % 4], rng.sample(h4, 3), n + 2)
+                yield self._grid_case(sig, 1, ['int16', 'uint8', 'float64', 'int64'][n % 4], rng.sample(h4, 2), n + 2)
+        # heights one float64 ulp away from the samples
+        nu = 40 if tier == 'quick' else 400
+        for _ in range(nu):
+            n = rng.randint(2, 8)
+            sig = [rng.randint(0, 3) for _ in range(n)]
+            hs = sorted({h for v in set(sig) for h in _ulp_neighbours(v)})
+            yield self._grid_case([v * ULP_DEN for v in sig], ULP_DEN, 'float64', hs, 4)
+        # memory layouts
+        nl = 6 if tier == 'quick' else 40
+        for layout in ['strided', 'neg', 'offset', 'column', 'readonly', 'zerostride']:
+            for k in range(nl):
+                n = rng.randint(2, 9)
+                sig = [2 * rng.randint(0, 3) for _ in range(n)] if layout != 'zerostride' else [2 * rng.randint(0, 3)] * n
+                c = self._grid_case(sig, 2, ['float64', 'int16', 'uint8', 'float32', 'int64', 'float64'][k % 6], ['-inf', 1, 2, 4], n + 2)
+                c['layout'] = layout
+                yield c
         # random longer signals
         nl = 300 if tier == 'quick' else 6000
         for k in range(nl):
@@ -484,31 +899,39 @@ class PeaksKind(Kind):
                 for _ in range(n):
                     v += rng.randint(-2, 2)
                     sig.append(v)
-            den = rng.choice([1, 1, 4])
-            dtype = rng.choice(['int32', 'int16', 'float64']) if den == 1 else rng.choice(['float64', 'float32'])
+            den = rng.choice([1, 2, 4])
+            dtype = rng.choice(['float64', 'float32'])
+            if k % 3 == 0:        # integer samples, thresholds on half-integers as well
+                sig = [den * v for v in sig]
+                dtype = rng.choice(['int32', 'int16', 'int64', 'int8'] + (['uint8', 'uint16', 'uint32', 'uint64'] if min(sig) >= 0 else []))
             lo, hi = min(sig), max(sig)
             qs = []
             for _ in range(6):
                 d = rng.choice([0, 1, 2, 3, rng.randint(2, 12), rng.randint(2, n + 2)])
                 h = rng.choice(['-inf', '-inf', rng.randint(lo - 1, hi + 1), '+inf' if rng.random() < 0.1 else lo])
                 qs.append([d, h])
-            yield {'data': sig, 'den': den, 'dtype': dtype, 'queries': qs, 'grid': None}
+            yield {'data': sig, 'den': den, 'dtype': dtype, 'queries': qs, 'grid': None, 'hform': ['float', 'np', 'int'][k % 3],
+                   'layout': rng.choice(['c', 'c', 'strided', 'neg', 'offset'])}
 
     @staticmethod
     def _grid_case(sig, den, dtype, hs, nd):
         return {'data': sig, 'den': den, 'dtype': dtype, 'grid': {'hs': hs, 'nd': nd},
                 'queries': [[d, h] for h in hs for d in range(nd)]}
 
-    def run(self, case):
+    def build(self, case):
+        return [_data_array(case)]
+
+    def invoke(self, arrs, case, keep=None):
         from scared import signal_processing as sp
-        a = _data_array(case)
-        before = a.copy()
+        a = arrs[0]
         out = []
         for d, h in case['queries']:
-            hv = -np.inf if h == '-inf' else np.inf if h == '+inf' else (h / case['den'] if case['den'] != 1 else h)
+            hv = -np.inf if h == '-inf' else np.inf if h == '+inf' else _scalar(h, case['den'], case.get('hform'))
             r = sp.find_peaks(a, d, hv)
-            out.append([int(v) for v in r])
-        return {'peaks': out, 'input_unchanged': bool(np.array_equal(a, before))}
+            if keep is not None:
+                keep.append(r)
+            out.append(_flat_int(r))
+        return {'peaks': out}
 
     def coq(self, case, obs):
         peaks = obs.get('peaks', [[] for _ in case['queries']])
@@ -523,19 +946,12 @@ class PeaksKind(Kind):
         return '{| pk_data := %s; pk_queries := %s; pk_hs := []; pk_nd := 0; pk_masks := [] |}' % (
             C.coq_list(case['data'], C.coq_z), C.coq_list(qs))
 
-    def oracle(self, case, obs):
-        if 'raised' in obs:
-            return f'find_peaks raised {obs["raised"]}: {obs["msg"]}'
-        if not obs['input_unchanged']:
-            return 'input array modified'
-        return None
-
     def nontrivial(self, case, obs):
         return any(d >= 2 for d, _ in case['queries']) and len(set(case['data'])) >= 2 and len(case['data']) >= 3
 
     def features(self, case, obs):
         n = len(case['data'])
-        return {'len': n if n <= 9 else '10+', 'dtype': case['dtype']}
+        return {'len': n if n <= 9 else '10+', 'dtype': case['dtype'], 'layout': case.get('layout', 'c'), 'hform': case.get('hform', 'float')}
 
     def tags(self, case, obs):
         return ['find_peaks']
@@ -549,10 +965,28 @@ class PeaksKind(Kind):
             h = len(qs) // 2
             yield dict(case, queries=qs[:h], grid=None)
             yield dict(case, queries=qs[h:], grid=None)
-        else:
+        elif case.get('layout') != 'zerostride':
             data = case['data']
             for i in range(len(data)):
                 yield dict(case, data=data[:i] + data[i + 1:], grid=None)
+
+    def histories(self, rng, tier):
+        n = 60 if tier == 'quick' else 500
+        for k in range(n):
+            m = rng.randint(3, 12)
+            dtype = ['float64', 'int16', 'uint8', 'float32', 'int64'][k % 5]
+            s0 = [2 * rng.randint(0, 4) for _ in range(m)]
+            s1 = list(s0)
+            for _ in range(rng.randint(1, 3)):
+                s1[rng.randrange(m)] = 2 * rng.randint(0, 5)
+            if s1 == s0:
+                s1[m // 2] = s0[m // 2] + 2
+            layout = rng.choice(['c', 'strided', 'neg', 'offset', 'column'])
+
+            def st(buf, sig):
+                return {'buf': buf, 'case': {'data': sig, 'den': 2, 'dtype': dtype, 'grid': None, 'layout': layout, 'hform': ['float', 'np'][k % 2],
+                                             'queries': [[rng.randint(0, m), rng.choice(['-inf', 1, 2, 3, 4, 5])] for _ in range(2)]}}
+            yield [st('A', s0), st('A', s1), st('B', s0), st('A', s0)][:2 + k % 3]
 
 
 def _zwmode(m):
@@ -577,7 +1011,11 @@ def _modes(rng, n, k, boundary=4):
     return out
 
 
-class WidthKind(Kind):
+SIGNED_FLOAT = ['float64', 'int16', 'float32', 'int8', 'int32', 'int64']     # Direction.POSITIVE refuses unsigned data (numpy 2)
+UNSIGNED = ['uint8', 'uint16', 'uint32', 'uint64']
+
+
+class WidthKind(Base):
     name = 'find_width'
     header = HDR_P
     case_type = 'fw_case'
@@ -585,20 +1023,49 @@ class WidthKind(Kind):
     explain_fn = 'fw_expected'
     shard = 400
     rule = ('find_width(data, direction, threshold, min_width[, max_width][, delta]): EVERY signal of length 0..7 (quick) / 0..9 '
-            '(thorough) over a 3-value alphabet x both directions x every threshold position (below, on each value, between, above) '
-            'x width modes (min 1, min 2, [1,1], 2+-1 and random valid ones incl. max_width with delta); runs touching either end, '
-            'adjacent runs, whole-signal runs are in that block; random longer signals; compared with the brute-force enumeration of '
-            'bracketed maximal runs and with the gap construction; non-trivial = at least one row returned')
+            '(thorough) over a 3-value alphabet x both directions x every threshold position (negative, below, on each value, between, '
+            'above; Python float / int / numpy.float64) x width modes (min 1, min 2, [1,1], 2+-1 and random valid ones incl. max_width '
+            'with delta), the dtype cycling through float64, float32 and the signed integer widths; unsigned data with '
+            'Direction.NEGATIVE; thresholds one float64 ulp below / on / above the samples; strided / negative-stride / offset / column / '
+            'read-only / zero-stride / big-endian data; runs touching either end, adjacent runs, whole-signal runs are in that block; '
+            'random longer signals; compared with the brute-force enumeration of bracketed maximal runs and with the gap '
+            'construction; non-trivial = at least one row returned')
 
     def gen(self, rng, tier):
         nmax = 7 if tier == 'quick' else 9
         thr3 = [-1, 0, 1, 2, 3, 4, 5]                          # numerators over den = 2 for data values 0, 2, 4
-        for sig in _signals([0, 2, 4], nmax):
+        for k, sig in enumerate(_signals([0, 2, 4], nmax)):
             n = len(sig)
-            thrs = thr3 if n <= 5 else thr3[1:-1]
+            thrs = [-3] + thr3 if n <= 5 else thr3[1:-1]
             modes = _modes(rng, n, 2, boundary=4) if n <= 5 else _modes(rng, n, 2, boundary=2) if n <= 7 else _modes(rng, n, 2, boundary=1)
-            yield {'data': sig, 'den': 2, 'dtype': 'float64' if n % 2 else 'int16x', 'grid': {'thrs': thrs, 'modes': modes},
+            yield {'data': sig, 'den': 2, 'dtype': SIGNED_FLOAT[k % len(SIGNED_FLOAT)], 'grid': {'thrs': thrs, 'modes': modes},
+                   'tform': ['float', 'np', 'int'][k % 3],
                    'queries': [[dr, t, m] for dr in ('positive', 'negative') for t in thrs for m in modes]}
+        # unsigned samples: only Direction.NEGATIVE is accepted by the code
+        nu = 150 if tier == 'quick' else 1500
+        for k in range(nu):
+            n = rng.randint(1, 9)
+            sig = [2 * rng.randint(0, 2) for _ in range(n)]
+            yield {'data': sig, 'den': 2, 'dtype': UNSIGNED[k % 4], 'grid': None, 'tform': ['float', 'np', 'int'][k % 3],
+                   'queries': [['negative', t, m] for t in rng.sample([-3] + thr3, 3) for m in _modes(rng, n, 1, boundary=1)]}
+        # thresholds one float64 ulp away from the samples
+        nu = 40 if tier == 'quick' else 400
+        for _ in range(nu):
+            n = rng.randint(2, 8)
+            sig = [rng.randint(0, 3) for _ in range(n)]
+            thrs = sorted({h for v in set(sig) for h in _ulp_neighbours(v)})
+            modes = _modes(rng, n, 1, boundary=1)
+            yield {'data': [v * ULP_DEN for v in sig], 'den': ULP_DEN, 'dtype': 'float64', 'grid': {'thrs': thrs, 'modes': modes},
+                   'queries': [[dr, t, m] for dr in ('positive', 'negative') for t in thrs for m in modes]}
+        # memory layouts
+        nl = 6 if tier == 'quick' else 40
+        for layout in ['strided', 'neg', 'offset', 'column', 'readonly', 'bigendian', 'zerostride']:
+            for k in range(nl):
+                n = rng.randint(2, 9)
+                sig = [2 * rng.randint(0, 2) for _ in range(n)] if layout != 'zerostride' else [2 * rng.randint(0, 2)] * n
+                thrs, modes = [0, 1, 2, 3], _modes(rng, n, 1, boundary=2)
+                yield {'data': sig, 'den': 2, 'dtype': ['float64', 'int16', 'float32', 'int64'][k % 4], 'grid': {'thrs': thrs, 'modes': modes},
+                       'layout': layout, 'queries': [[dr, t, m] for dr in ('positive', 'negative') for t in thrs for m in modes]}
         nl = 300 if tier == 'quick' else 6000
         for k in range(nl):
             n = rng.randint(8, 60)
@@ -612,37 +1079,39 @@ class WidthKind(Kind):
                     sig.append(v)
             else:
                 sig = [rng.randint(-20, 20) for _ in range(n)]
-            den = rng.choice([1, 1, 2])
-            dtype = rng.choice(['int32', 'int16', 'float64']) if den == 1 else 'float64'
+            den = rng.choice([1, 2, 2])
+            dtype = rng.choice(['float64', 'float32'])
+            if k % 2 == 0:        # integer samples, thresholds on half-integers as well
+                sig = [den * v for v in sig]
+                dtype = rng.choice(['int32', 'int16', 'int64', 'int8'])
             qs = [[rng.choice(['positive', 'negative']), rng.randint(min(sig) - 1, max(sig) + 1), m] for m in _modes(rng, min(n, 10), 3)]
-            yield {'data': sig, 'den': den, 'dtype': dtype, 'queries': qs, 'grid': None}
+            yield {'data': sig, 'den': den, 'dtype': dtype, 'queries': qs, 'grid': None, 'tform': ['float', 'np', 'int'][k % 3],
+                   'layout': rng.choice(['c', 'c', 'strided', 'neg', 'offset'])}
 
-    def run(self, case):
+    def build(self, case):
+        return [_data_array(case)]
+
+    def invoke(self, arrs, case, keep=None):
         from scared import signal_processing as sp
-        c = dict(case)
-        if c['dtype'] == 'int16x':      # integer data with a float threshold: data given unscaled
-            c = dict(c, data=[v // case['den'] for v in case['data']], den=1, dtype='int16')
-        a = _data_array(c)
-        before = a.copy()
+        a = arrs[0]
         out = []
-        with warnings.catch_warnings():
-            warnings.simplefilter('ignore')
-            for dr, t, m in case['queries']:
-                thr = t / case['den'] if case['den'] != 1 else t
-                direction = sp.Direction.POSITIVE if dr == 'positive' else sp.Direction.NEGATIVE
-                kw = {}
-                if m[0] in ('minmax', 'minmaxdelta'):
-                    kw['max_width'] = m[2]
-                if m[0] == 'delta':
-                    kw['delta'] = m[2]
-                if m[0] == 'minmaxdelta':
-                    kw['delta'] = m[3]
-                r = sp.find_width(a, direction, thr, m[1], **kw)
-                r = np.asarray(r)
-                if r.ndim != 2 or r.shape[1] != 2:
-                    return {'raised': 'BadShape', 'msg': str(r.shape)}
-                out.append([[int(v[0]), int(v[1])] for v in r])
-        return {'rows': out, 'input_unchanged': bool(np.array_equal(a, before))}
+        for dr, t, m in case['queries']:
+            thr = _scalar(t, case['den'], case.get('tform'))
+            direction = sp.Direction.POSITIVE if dr == 'positive' else sp.Direction.NEGATIVE
+            kw = {}
+            if m[0] in ('minmax', 'minmaxdelta'):
+                kw['max_width'] = m[2]
+            if m[0] == 'delta':
+                kw['delta'] = m[2]
+            if m[0] == 'minmaxdelta':
+                kw['delta'] = m[3]
+            r = np.asarray(sp.find_width(a, direction, thr, m[1], **kw))
+            if r.ndim != 2 or r.shape[1] != 2:
+                return {'raised': 'BadShape', 'msg': str(r.shape)}
+            if keep is not None:
+                keep.append(r)
+            out.append([[int(v[0]), int(v[1])] for v in r.tolist()])
+        return {'rows': out}
 
     def coq(self, case, obs):
         rows = obs.get('rows', [[] for _ in case['queries']])
@@ -666,11 +1135,7 @@ class WidthKind(Kind):
         return '{| fw_data := %s; fw_queries := %s; fw_thrs := []; fw_modes := []; fw_masks := [] |}' % (
             C.coq_list(case['data'], C.coq_z), C.coq_list(qs))
 
-    def oracle(self, case, obs):
-        if 'raised' in obs:
-            return f'find_width raised {obs["raised"]}: {obs["msg"]}'
-        if not obs['input_unchanged']:
-            return 'input array modified'
+    def extra_oracle(self, case, obs):
         if any(a < 0 or b < 0 for rw in obs['rows'] for a, b in rw):
             return 'find_width returned a negative index'
         return None
@@ -680,7 +1145,8 @@ class WidthKind(Kind):
 
     def features(self, case, obs):
         n = len(case['data'])
-        return {'len': n if n <= 9 else '10+', 'rows': min(sum(len(r) for r in obs.get('rows', [])), 5)}
+        return {'len': n if n <= 9 else '10+', 'rows': min(sum(len(r) for r in obs.get('rows', [])), 5), 'dtype': case['dtype'],
+                'layout': case.get('layout', 'c'), 'tform': case.get('tform', 'float')}
 
     def tags(self, case, obs):
         return ['find_width']
@@ -694,10 +1160,29 @@ class WidthKind(Kind):
             h = len(qs) // 2
             yield dict(case, queries=qs[:h], grid=None)
             yield dict(case, queries=qs[h:], grid=None)
-        else:
+        elif case.get('layout') != 'zerostride':
             data = case['data']
             for i in range(len(data)):
                 yield dict(case, data=data[:i] + data[i + 1:], grid=None)
+
+    def histories(self, rng, tier):
+        n = 60 if tier == 'quick' else 500
+        for k in range(n):
+            m = rng.randint(3, 12)
+            dtype = ['float64', 'int16', 'float32', 'int64', 'int8'][k % 5]
+            s0 = [2 * rng.randint(0, 2) for _ in range(m)]
+            s1 = list(s0)
+            for _ in range(rng.randint(1, 3)):
+                s1[rng.randrange(m)] = 2 * rng.randint(0, 3)
+            if s1 == s0:
+                s1[m // 2] = s0[m // 2] + 2
+            layout = rng.choice(['c', 'strided', 'neg', 'offset', 'column'])
+
+            def st(buf, sig):
+                return {'buf': buf, 'case': {'data': sig, 'den': 2, 'dtype': dtype, 'grid': None, 'layout': layout, 'tform': ['float', 'np'][k % 2],
+                                             'queries': [[rng.choice(['positive', 'negative']), rng.choice([0, 1, 2, 3, 4]), mm]
+                                                         for mm in _modes(rng, m, 1, boundary=1)]}}
+            yield [st('A', s0), st('A', s1), st('B', s0), st('A', s0)][:2 + k % 3]
 
 
 def _spread(gen):
@@ -720,4 +1205,16 @@ def _spread(gen):
 PeaksKind.gen = _spread(PeaksKind.gen)
 WidthKind.gen = _spread(WidthKind.gen)
 
-KINDS = [MovingKind(), PatternKind(), PadKind(), ExtractKind(), PeaksKind(), WidthKind()]
+_HIST_RULE = ('2-4 calls of %s on named buffers: a buffer used again is modified IN PLACE (same ndarray object: one sample poked, '
+              'refill, sign flip) between the calls, a second array holds the same values, functions / windows / axes / thresholds alternate, '
+              'buffers in several memory layouts; every call compared with the spec of its content at call time, earlier results must be '
+              'unchanged at the end; non-trivial = a buffer is used at least twice')
+
+_MV, _PD, _PA, _EX, _PK, _FW = MovingKind(), PatternKind(), PadKind(), ExtractKind(), PeaksKind(), WidthKind()
+KINDS = [_MV, _PD, _PA, _EX, _PK, _FW,
+         History(_MV, _MV.histories, _HIST_RULE % 'the six moving operators (one or two per call)'),
+         History(_PD, _PD.histories, _HIST_RULE % 'correlation / distance / bcdc (trace or pattern modified)'),
+         History(_PA, _PA.histories, _HIST_RULE % 'pad'),
+         History(_EX, _EX.histories, _HIST_RULE % 'extract_around_indexes'),
+         History(_PK, _PK.histories, _HIST_RULE % 'find_peaks'),
+         History(_FW, _FW.histories, _HIST_RULE % 'find_width')]
